@@ -226,6 +226,10 @@ func (l *List) LRem(key string, count int, value []byte) (int, error) {
 
 	if count < 0 {
 		count = -count
+		if count < 0 {
+			// the minimum int has no positive counterpart: every occurrence is to be removed
+			count = needRemovedNum
+		}
 		for i := size - 1; i >= 0; i-- {
 			v := tempVal[i]
 			if realRemovedNum < count && bytes.Equal(v, value) {
